@@ -5,7 +5,7 @@
 # named quick checks against that worktree through tools/try_wt.sh. Removes the worktree afterwards.
 ad=$1; which=$2; id=$3; shift 3
 wt=/tmp/intake.$$
-git -C /repo worktree add -q --detach $wt HEAD || exit 2
+git -C /repo worktree add -q --detach $wt ${BASE:-HEAD} || exit 2
 ( cd $wt && { git apply $ad/seed_out/$which.diff || git apply -3 $ad/seed_out/$which.diff; } ) || { echo "patch does not apply"; git -C /repo worktree remove --force $wt; exit 2; }
 mkdir -p /verif/seeded/$id
 cp $ad/seed_out/$which.md /verif/seeded/$id/agent_notes.md 2>/dev/null
